@@ -11,6 +11,7 @@ CONSTANTS MaxLinks = 2
  PinSer = TRUE
  PinBos = FALSE
  Spans = {0}
+ Dmg = {}
  PLen = 2
  ReadLens = {100}
  MaxCalls = 14
